@@ -24,12 +24,13 @@ Theorem C01_json_string_roundtrip_nonbyte_refuted :
 Proof. exact json_quoted_roundtrip_nonbyte_refuted. Qed.
 Print Assumptions C01_json_string_roundtrip_nonbyte_refuted.
 
-(* both hypotheses are met by the RFC 3629 encoding of every sequence of characters that
-   ly_getutf8 accepts (all Unicode scalar values except C0 controls other than TAB/LF/CR and
-   U+FFFE/U+FFFF) *)
+(* both hypotheses are met by the RFC 3629 encoding of every sequence of yang-char
+   (RFC 7950 section 14: Unicode scalar values except C0 controls other than TAB/LF/CR and the
+   noncharacters), which since /repo commit d2cc93f are exactly the characters ly_getutf8 accepts
+   (Utf8P.getutf8_encode_iff) *)
 Theorem C01_json_string_roundtrip_unicode :
   forall cps rest,
-    forallb getutf8_accepts_char cps = true ->
+    forallb is_yang_char cps = true ->
     let s := flat_map utf8_encode cps in
     json_quoted (json_esc s ++ rest) = Ok (s, rest).
 Proof. exact json_quoted_roundtrip_encoded. Qed.
@@ -38,7 +39,7 @@ Print Assumptions C01_json_string_roundtrip_unicode.
 (* the hypotheses are satisfiable by a value mixing every escape class *)
 Example C01_json_string_roundtrip_example :
   let cps := [97; 34; 92; 47; 13; 9; 10; 127; 32; 233; 8364; 128512; 91; 93] in
-  forallb getutf8_accepts_char cps = true /\
+  forallb is_yang_char cps = true /\
   json_quoted (json_esc (flat_map utf8_encode cps) ++ [44; 34; 120; 34]) =
     Ok (flat_map utf8_encode cps, [44; 34; 120; 34]).
 Proof. exact json_roundtrip_example. Qed.
